@@ -48,6 +48,9 @@ def run(ctx):
         import wiring
         ctx.guard(wiring.builders, ctx, cfg, fs, 'S.strictness', r'^(positional|params::build_positional|params::ParsePositional::<T>::(strict|non_strict|help))$')
         ctx.guard(classes, ctx, cfg, fs)
+        import c12
+        # a strict positional may open an adjacent group: Meta::first_item looks through the Strict wrapper like through any other (shared with C12)
+        ctx.guard(c12.walker_rules, ctx, cfg, fs, 'S.strictness', {'first_item': c12.WALKERS['first_item']})
         ctx.guard(after_separator, ctx, cfg, fs)
         ctx.guard(helpflag, ctx, cfg, fs)
         import c06, c08, c05
